@@ -690,7 +690,7 @@ func (r *RootAssertionNode) AddComputation(expr ast.Expr) {
 			// expression `expr` to the root node.
 			if len(exprArgs) == 1 {
 				// (a conversion such as `(*int)(x)` is not a function call, and is consumed as any other argument)
-				if argFunc, ok := exprArgs[0].(*ast.CallExpr); ok && !r.isType(argFunc.Fun) {
+				if argFunc, ok := ast.Unparen(exprArgs[0]).(*ast.CallExpr); ok && !r.isType(argFunc.Fun) {
 					handleArgFuncIdent := func(argFuncIdent *ast.Ident) bool {
 						if r.isFunc(argFuncIdent) {
 							funcObj := r.ObjectOf(argFuncIdent).(*types.Func)
